@@ -238,8 +238,26 @@ func runDawg(w *tr.W, in dawgIn, prop string) {
 		w.Emit(tr.E{"ev": "Lookup", "w": p, "id": id, "ok": found, "res": res})
 	}
 	if prop == "C13" {
-		for _, s := range in.Searches {
+		// every other search also runs on a serialised copy of d decoded into a Dawg that held another automaton (with the empty word) before:
+		// a Dawg is a Dawg however it was obtained
+		var d2 *dawg.Dawg
+		obs.Safe(func() {
+			var pb dawg.Builder
+			pb.Add([]byte{})
+			pb.Add([]byte{97})
+			p, _ := pb.Finish()
+			pbytes, _ := p.GobEncode()
+			enc, _ := d.GobEncode()
+			x := new(dawg.Dawg)
+			if x.GobDecode(pbytes) == nil && x.GobDecode(enc) == nil {
+				d2 = x
+			}
+		})
+		for k, s := range in.Searches {
 			runSearch(w, d, s)
+			if d2 != nil && k%2 == 0 {
+				runSearch(w, d2, s)
+			}
 		}
 	}
 	if in.Gob && prop == "C14" {
